@@ -182,6 +182,28 @@ def minimise(profile: Any, case: dict[str, Any], prop: str, signature: str, budg
         cand["strategy"] = "explicit"
         if still(cand):
             best = cand
+    # ... then merge adjacent slices: remove one context switch at a time while the violation persists
+    if isinstance(best.get("schedule"), list) and best.get("strategy") == "explicit" or (isinstance(best.get("schedule"), list) and "sched_seed" in best):
+        if best.get("strategy") != "explicit":
+            probe = dict(best)
+            r0 = run_one(profile, copy.deepcopy(probe))
+            if _has(r0, prop, signature) and "schedule" in r0:
+                best = dict(best, schedule=r0["schedule"], strategy="explicit")
+        progress = best.get("strategy") == "explicit"
+        while progress and time.time() < t_end:
+            progress = False
+            sched = list(best["schedule"])
+            for i in range(1, len(sched)):
+                if sched[i] != sched[i - 1]:
+                    cand = dict(best, schedule=sched[:i] + [sched[i - 1]] + sched[i + 1:], strategy="explicit")
+                    if still(cand):
+                        switches = lambda x: sum(1 for j in range(1, len(x)) if x[j] != x[j - 1])  # noqa: E731
+                        if switches(cand["schedule"]) < switches(sched):
+                            best = cand
+                            progress = True
+                            break
+                if time.time() > t_end:
+                    break
     if hasattr(profile, "shrink_more"):
         best = profile.shrink_more(best, still, t_end)
     # make the schedule explicit in the final file
